@@ -6,7 +6,8 @@ VARIABLES done
 LZ == INSTANCE LzhEnc WITH NSym <- 314, MaxCount <- 65535
 Lit8(c) == [k |-> "lit", c |-> c]
 Mt(l, d) == [k |-> "match", len |-> l, dist |-> d]
-TokSets == << << Lit8(72), Lit8(105) >>, << Lit8(65), Mt(5, 0), Lit8(66) >>, << Mt(60, 4095), Lit8(0), Mt(3, 1) >>, <<>> >>
+TokSets == << << Mt(7, 3), Lit8(66), Mt(60, 60) >>,                 \* begins with matches reaching into the window as it is before the first byte (spaces)
+              << Lit8(72), Lit8(105) >>, << Lit8(65), Mt(5, 0), Lit8(66) >>, << Mt(60, 4095), Lit8(0), Mt(3, 1) >>, <<>> >>
 Plain(name, bytes) == [name |-> name, size |-> Len(bytes), kind |-> Uncompressed, stored |-> bytes, plain |-> bytes]
 Packed(name, toks) == LET e == LZ!Encode(toks)  d == LZ!Decode(e.bytes) IN
                       [name |-> name, size |-> Len(e.payload), kind |-> LZH, stored |-> e.bytes, plain |-> d.out]
